@@ -93,6 +93,17 @@ Theorem C16_SE3_Ad_structural : forall (T : Type) (O : ops T) (X : M44 T), match
 Proof. intros; destruct_tuples; repeat split; reflexivity. Qed.
 Print Assumptions C16_SE3_Ad_structural.
 
+(* SE3.jacob (repaired by 5493c9a: it now calls base.tr2jac): the velocity-transform Jacobian [[R',0],[0,R']] *)
+Theorem C16_SE3_jacob_value : forall X : M44 R,
+  tr_SE3_jacob Rops X = tr2jac_ref Rops X /\ tr_SE3_jacob Rops X = tr_tr2jac Rops X.
+Proof. intros; split; gen_ring. Qed.
+Print Assumptions C16_SE3_jacob_value.
+
+Theorem C16_SE3_jacob_structural : forall (T : Type) (O : ops T) (X : M44 T),
+  matches O (pat_jac true) (fl66 (tr_SE3_jacob O X)) /\ tr_SE3_jacob O X = tr_tr2jac O X.
+Proof. intros; destruct_tuples; repeat split; reflexivity. Qed.
+Print Assumptions C16_SE3_jacob_structural.
+
 (* ------------------------------------------------------------------ simplify *)
 (* X * X.inv() simplifies to the identity, every entry an exact constant *)
 Theorem C16_simplify_identity : forall (T : Type) (O : ops T) (a : T) (v : V3 T),
